@@ -195,7 +195,11 @@ func (db *DB) Delete(
 		)
 	}
 
-	persist := db.idx.indexPersist.prepare(startDomain)
+	// Persist from the lowest position that is dirty on disk: a lazily persisted commit
+	// (index.insert/update with persist == false) may have changed positions below
+	// startDomain, and rewriting only the tail would leave a stale prefix next to it.
+	db.idx.persistHead = min(db.idx.persistHead, startDomain)
+	persist := db.idx.indexPersist.prepare(db.idx.persistHead)
 	// We choose to keep the mutex locked while persisting to index.
 	return span.Error(persist())
 }
